@@ -30,10 +30,20 @@ HoldsTag(L, r) ==
                  /\ HexLE(r[1], L[n].ops[1]) /\ HexLE(L[n].ops[1], r[2]))
           /\ (O[n].ops # <<TagOperand>> => O[n] = L[n])
 
+\* (3) the shipped observer chain, as implemented, equals the composed chain on every instruction
+HoldsChain(L, r) ==
+    LET chain == << <<"empty">>, <<"valid", r[1], r[2]>> >> IN
+    \A n \in DOMAIN L : \A i \in {L[n], [L[n] EXCEPT !.mn = "empty"]} :
+        ChainImpl(chain, i, i) = ChainComposed(chain, i)
+\* control: with a second transforming observer the implemented chain loses the first transformation
+ChainControl == \E i \in {Ins("1", "call", <<"401000">>)} :
+    LET chain == << <<"valid", "0x401000", "0x401000">>, <<"upper">> >> IN ChainImpl(chain, i, i) # ChainComposed(chain, i)
+ASSUME ChainControl
+
 Init == \/ k = "hex" /\ a \in Numerals /\ b \in Numerals /\ res = "?"
         \/ k = "tag" /\ a \in Listings /\ b \in Ranges /\ res = "?"
 Next == /\ res = "?"
-        /\ res' = (IF (IF k = "hex" THEN HoldsHex(a, b) ELSE HoldsTag(a, b)) THEN "ok" ELSE "bad")
+        /\ res' = (IF (IF k = "hex" THEN HoldsHex(a, b) ELSE HoldsTag(a, b) /\ HoldsChain(a, b)) THEN "ok" ELSE "bad")
         /\ UNCHANGED <<k, a, b>>
 Spec == Init /\ [][Next]_vars
 C18_Design == res # "bad"
